@@ -118,7 +118,7 @@ pub fn orchestrate<P: Prop>(tier: Tier) -> i32 {
         let child = Command::new(bin_for(profile))
             .args(["worker", id, tier.name(), "--seed", &wseed.to_string(), "--widx", &widx.to_string(), "--nw", &nw.to_string(), "--cases", &n.to_string(), "--profile", profile, "--out", out.to_str().unwrap(), "--journal", journal.to_str().unwrap()])
             .args(if *widx == 0 { vec!["--selfcheck"] } else { vec![] })
-            .args(if profile != "rel" { vec!["--no-fixed"] } else { vec![] })
+            .args(if profile != "rel" && !P::fixed_on_all_profiles() { vec!["--no-fixed"] } else { vec![] })
             .stdout(Stdio::null())
             .stderr(Stdio::inherit())
             .spawn();
@@ -194,6 +194,7 @@ pub fn orchestrate<P: Prop>(tier: Tier) -> i32 {
     }
 
     // ---- confirm crashes / hangs in isolation
+    let mut known_crashes: BTreeMap<String, u64> = BTreeMap::new();
     for (profile, wseed, kind, idx, how) in crashed {
         if kind >= 2 {
             machinery.push(format!("worker ({profile}) died ({how}) outside a case (phase {kind})"));
@@ -206,11 +207,18 @@ pub fn orchestrate<P: Prop>(tier: Tier) -> i32 {
                 continue;
             }
         };
-        let sig = format!("{}:{}", if how == "stalled" { "hang" } else { "crash" }, how.replace(' ', "_"));
+        let sig = match (how == "stalled", P::crash_sig(&case)) {
+            (false, Some(s)) => s,
+            _ => format!("{}:{}", if how == "stalled" { "hang" } else { "crash" }, how.replace(' ', "_")),
+        };
         let rf = ReplayFile { property: id.into(), profile: profile.clone(), kind: if how == "stalled" { "hang".into() } else { "crash".into() }, sig: sig.clone(), msg: format!("worker process ended abnormally ({how}) while running this case"), case: serde_json::to_value(&case).unwrap() };
         std::fs::create_dir_all(&found_dir).ok();
         let path = found_dir.join(format!("{}.json", sig_hash(&format!("{sig}{}", fingerprint(&case)))));
         std::fs::write(&path, serde_json::to_vec_pretty(&rf).unwrap()).ok();
+        if known_all.iter().any(|k| k.status == "known" && k.key == sig) {
+            *known_crashes.entry(sig.clone()).or_insert(0) += 1;
+            continue;
+        }
         // isolated confirmation
         let limit = Duration::from_secs(600);
         let mut ch = match Command::new(bin_for(&profile)).args(["replay", id, path.to_str().unwrap(), "--profile", &profile]).stdout(Stdio::null()).stderr(Stdio::null()).spawn() {
@@ -247,7 +255,7 @@ pub fn orchestrate<P: Prop>(tier: Tier) -> i32 {
     let mut evaluations = regress;
     let mut fps: BTreeSet<u64> = BTreeSet::new();
     let mut classes: BTreeMap<String, u64> = BTreeMap::new();
-    let mut known_hits: BTreeMap<String, u64> = BTreeMap::new();
+    let mut known_hits: BTreeMap<String, u64> = known_crashes.clone();
     let mut samples: Vec<serde_json::Value> = Vec::new();
     let mut notes: BTreeMap<String, serde_json::Value> = BTreeMap::new();
     let mut cases = 0;
